@@ -235,6 +235,10 @@ func (p *ServerProcessor) OnComplete(parser *Parser) {
 	if request.URL.Host == "" {
 		request.URL.Host = request.Header.Get("Host")
 		request.Host = request.URL.Host
+	} else {
+		// absolute-form or authority-form: the target names the host,
+		// any Host line is ignored (RFC 7230 5.4).
+		request.Host = request.URL.Host
 	}
 
 	request.TransferEncoding = request.Header[transferEncodingHeader]
